@@ -13,10 +13,11 @@ Correspondence (real code vs Model/Rpc.lean, same cases):
            arity fault / body entered (sys.setprofile on the method's code object)
   gate     every public method of the real interface in every mood: SHUTDOWN_STATE or not, and whether anything changed
 Monitors: the statement itself (closure, arity, gating, documented fault codes), and the real
-supervisor_xmlrpc_handler end-to-end on marshalled requests (never 500 on documented argument types, fault codes
-in Faults, multicall element for element what single requests return).
+supervisor_xmlrpc_handler end-to-end: requests as HTTP bytes into a real deferring_http_channel, judged on the response bytes
+(status, Content-Length == body bytes, body parses, value == the direct call's value; immediate and deferred answers, non-ASCII
+names / signals / log contents / multicall elements).
 """
-import errno, inspect, os, re, sys, types
+import errno, inspect, os, re, socket, sys, types
 from framework import Infra
 
 ID = 'C12'
@@ -27,7 +28,7 @@ TRUSTED = [
     "Python's getattr / bound-method creation / argument binding (a call with a wrong number of positional arguments raises TypeError before the body runs): a parameter of the model (Kind, minArgs, maxArgs), exercised not verified",
     "str.split('.') and str.startswith('_') are modelled on character lists (splitDot, head?)",
     "method *bodies* are arbitrary state transformers in the theorems; which faults each real body raises is read off the AST (raisesTable), not proved from the body",
-    "xmlrpclib marshalling, the medusa HTTP request/channel objects and DeferredXMLRPCResponse are exercised through the real handler with supervisor.tests.base.DummyRequest, not modelled",
+    "xmlrpclib marshalling, the medusa request/producer objects and DeferredXMLRPCResponse are exercised, not modelled: every end-to-end request is sent as HTTP bytes over a socketpair into a real deferring_http_channel (only its server object is a stub) with the real supervisor_xmlrpc_handler installed, and judged on the bytes that come back; only the Content-Length computation of the two response builders is modelled (generated contReq_a9/defResp_a1) and proved",
     "'never 500 / never hangs / daemon survives' is PARTIAL: proved = refused names and arity errors answer a fault without running anything, gated methods answer SHUTDOWN_STATE, log methods never raise (C16 log_rpc_never_raises), every fault name is in Faults; exercised = the real handler on every public method with arguments of the documented types",
 ]
 ASSUMPTIONS = [
@@ -228,6 +229,80 @@ def drive_multicall(system, calls, log, max_ticks=10000):
     return 'results=%s ticks=%d ran=%s' % (';'.join(el(x) for x in v) if v else '-', ticks, ','.join(ran) if ran else '-')
 
 
+def rec_call(ctx, root, spec, entries, name, nargs, use_attrdict, log):
+    """one traverse() on a recording world: canonical line + the closure/arity monitors of the statement"""
+    from supervisor import xmlrpc
+    line = outcome_line(lambda: xmlrpc.traverse(root, name, tuple(range(nargs))), log)
+    ctx.count('rec:' + line.split(' ran=')[0].split()[0] + (line.split()[1] if line.startswith('fault') else ''))
+    parts = name.split('.')
+    k = spec.get(parts[0], {}).get(parts[1]) if len(parts) == 2 else None
+    public = len(parts) == 2 and not parts[1].startswith('_') and k is not None and k[0] == 'm'
+    ran = line.split(' ran=')[1]
+    inp = {'part': 'rec', 'entries': entries, 'name': name, 'nargs': nargs, 'attrdict': use_attrdict}
+    if not public and (ran != '-' or not line.startswith('fault 1 ')):
+        ctx.violation('non-public-name-executed' if ran != '-' else 'refused-name-wrong-answer',
+                      'name %r is not a public method of a namespace but traverse answered %r' % (name, line), inp)
+    if public and not (k[1] <= nargs <= k[2]) and (ran != '-' or not line.startswith('fault 2 ')):
+        ctx.violation('arity-not-incorrect-parameters', '%r takes %d..%d arguments, %d given: %r' % (name, k[1], k[2], nargs, line), inp)
+    if public and k[1] <= nargs <= k[2] and ran == '-':
+        ctx.violation('public-method-not-called', '%r with %d arguments: %r' % (name, nargs, line), inp)
+    ctx.case_done(('rec', tuple(entries), name, nargs, use_attrdict), nontrivial=parts[0] in spec)
+    return line
+
+
+def multi_case(ctx, system, spec, entries, calls, log, shadowed):
+    """one system.multicall polled to completion + the 'element for element what sequential calls return' monitors"""
+    from supervisor import xmlrpc
+    line = drive_multicall(system, calls, log)
+    ctx.count('multi:calls', len(calls)); ctx.count('multi:ticks', int(line.split('ticks=')[1].split()[0]) if 'ticks=' in line else 0)
+    if shadowed:
+        return line        # a recording namespace called 'system' is shadowed by the real one in multicall's root
+    log2 = []
+    nss2, _, _ = rebuild(None, spec, log2)
+    root2 = xmlrpc.AttrDict(dict(nss2)); root2['system'] = xmlrpc.SystemNamespaceRPCInterface(nss2)
+    want = []
+    for c in calls:
+        nm = c.get('methodName')
+        if nm is None or nm == 'system.multicall':
+            want.append('f2'); continue
+        want.append(single_result(root2, nm, tuple(c['params'])))
+    got = line.split('results=')[1].split()[0] if 'results=' in line else line
+    inp = {'part': 'multi', 'entries': entries, 'calls': calls}
+    if got != (';'.join(want) if want else '-'):
+        ctx.violation('multicall-differs-from-sequential', 'multicall answered %s, the calls one after another answer %s' % (got, ';'.join(want)), inp)
+    ran_str = line.split('ran=')[1] if 'ran=' in line else line
+    if ran_str != (','.join(log2) or '-'):
+        ctx.violation('multicall-execution-order', 'multicall ran %s, sequential calls run %s' % (ran_str, ','.join(log2) or '-'), inp)
+    ctx.case_done(('multi', tuple(entries), repr(calls)), nontrivial=len(calls) > 0)
+    return line
+
+
+def parse_beh(ts):
+    def fin(t):
+        return ('x',) if t == 'x' else (t[0], int(t[1:]))
+    if ts[0] == 't':
+        return ('t',)
+    if ts[0].startswith('d'):
+        return ('d', int(ts[0][1:]), fin(ts[1]))
+    return fin(ts[0])
+
+
+def spec_from_entries(entries):
+    """the attribute table of a replay file back as a spec (plain data stands for every non-method attribute)"""
+    unhx = lambda h: '' if h == '-' else bytes.fromhex(h).decode('utf-8')
+    spec = {}
+    for e in entries:
+        f = e.split(':')
+        ns = unhx(f[0]); spec.setdefault(ns, {})
+        if len(f) == 3:
+            if f[2] == 'o':
+                spec[ns][unhx(f[1])] = ('o',)
+            else:
+                g = f[2][1:].split(',')
+                spec[ns][unhx(f[1])] = ('m', int(g[0]), int(g[1]), parse_beh(g[2:]))
+    return spec
+
+
 def run_rec(ctx):
     from supervisor import xmlrpc
     rng = ctx.rng
@@ -250,27 +325,9 @@ def run_rec(ctx):
                 plan.append((name, nargs))
         rng.shuffle(plan)
         for name, nargs in plan:
-            if True:
-                ops.append('call %s %d' % (hx(name), nargs))
-                line = outcome_line(lambda: xmlrpc.traverse(root, name, tuple(range(nargs))), log)
-                il.append(line)
-                ctx.count('rec:' + line.split(' ran=')[0].split()[0] + (line.split()[1] if line.startswith('fault') else ''))
-                # ---- monitor: closure and arity, straight from the statement
-                parts = name.split('.')
-                k = spec.get(parts[0], {}).get(parts[1]) if len(parts) == 2 else None
-                public = len(parts) == 2 and not parts[1].startswith('_') and k is not None and k[0] == 'm'
-                ran = line.split(' ran=')[1]
-                inp = {'part': 'rec', 'entries': entries, 'name': name, 'nargs': nargs, 'attrdict': use_attrdict}
-                if not public and (ran != '-' or not line.startswith('fault 1 ')):
-                    ctx.violation('non-public-name-executed' if ran != '-' else 'refused-name-wrong-answer',
-                                  'name %r is not a public method of a namespace but traverse answered %r' % (name, line), inp)
-                if public and not (k[1] <= nargs <= k[2]) and (ran != '-' or not line.startswith('fault 2 ')):
-                    ctx.violation('arity-not-incorrect-parameters', '%r takes %d..%d arguments, %d given: %r' % (name, k[1], k[2], nargs, line), inp)
-                if public and k[1] <= nargs <= k[2] and ran == '-':
-                    ctx.violation('public-method-not-called', '%r with %d arguments: %r' % (name, nargs, line), inp)
-                ctx.case_done(('rec', tuple(entries), name, nargs, use_attrdict), nontrivial=parts[0] in spec)
+            ops.append('call %s %d' % (hx(name), nargs))
+            il.append(rec_call(ctx, root, spec, entries, name, nargs, use_attrdict, log))
         # multicall over the system namespace's own root (AttrDict(namespaces) incl. 'system')
-        sys_spec_entries = list(entries) + [hx('system')] if not any(n == 'system' for n, _ in nss) else entries
         callable_names = ['%s.%s' % (ns, a) for ns, at in spec.items() if ns != 'system' for a, k in at.items()]
         for _ in range(3):
             calls, items = [], []
@@ -285,29 +342,7 @@ def run_rec(ctx):
                 else: nm = rng.choice(callable_names)
                 calls.append({'methodName': nm, 'params': list(range(nargs))}); items.append('%s:%d' % (hx(nm), nargs))
             ops.append('multi ' + (','.join(items) if items else '-'))
-            line = drive_multicall(system, calls, log)
-            il.append(line)
-            ctx.count('multi:calls', len(calls)); ctx.count('multi:ticks', int(line.split('ticks=')[1].split()[0]) if 'ticks=' in line else 0)
-            # ---- monitor: element for element what single calls return, faults as structs, recursion refused
-            if any(n == 'system' for n, _ in nss):
-                continue       # a recording namespace called 'system' is shadowed by the real one in multicall's root
-            log2 = []
-            nss2, _, _ = rebuild(rng, spec, log2)
-            root2 = xmlrpc.AttrDict(dict(nss2)); root2['system'] = xmlrpc.SystemNamespaceRPCInterface(nss2)
-            want = []
-            for c in calls:
-                nm = c.get('methodName')
-                if nm is None or nm == 'system.multicall':
-                    want.append('f2'); continue
-                want.append(single_result(root2, nm, tuple(c['params'])))
-            got = line.split('results=')[1].split()[0] if 'results=' in line else line
-            inp = {'part': 'multi', 'entries': entries, 'calls': calls}
-            if got != (';'.join(want) if want else '-'):
-                ctx.violation('multicall-differs-from-sequential', 'multicall answered %s, the calls one after another answer %s' % (got, ';'.join(want)), inp)
-            ran_str = line.split('ran=')[1] if 'ran=' in line else line
-            if ran_str != (','.join(log2) or '-'):
-                ctx.violation('multicall-execution-order', 'multicall ran %s, sequential calls run %s' % (ran_str, ','.join(log2) or '-'), inp)
-            ctx.case_done(('multi', tuple(entries), tuple(items)), nontrivial=len(calls) > 0)
+            il.append(multi_case(ctx, system, spec, entries, calls, log, any(n == 'system' for n, _ in nss)))
         cases.append(('case rpc ' + ' '.join(sys_entries(entries, nss)), ops)); impls.append(il)
     ctx.sample({'case': cases[0][0][:200], 'ops': cases[0][1][:4] + cases[0][1][-1:], 'impl': impls[0][:4] + impls[0][-1:]})
     ctx.correspond('rec', cases, impls)
@@ -356,7 +391,7 @@ def single_result(root, name, params):
 # =================================================================================================
 # the real interface objects
 # =================================================================================================
-def make_real(mood=1, with_logs=None):
+def make_real(mood=1, with_logs=None, pname='proc'):
     from supervisor.tests.base import DummyOptions, DummyPConfig, PopulatedDummySupervisor, DummyPGroupConfig
     from supervisor.rpcinterface import SupervisorNamespaceRPCInterface
     from supervisor import xmlrpc
@@ -364,7 +399,7 @@ def make_real(mood=1, with_logs=None):
     kw = {}
     if with_logs:
         kw = {'stdout_logfile': with_logs, 'stderr_logfile': with_logs}
-    pconfig = DummyPConfig(opts, 'proc', '/bin/true', **kw)
+    pconfig = DummyPConfig(opts, pname, '/bin/true', **kw)
     sup = PopulatedDummySupervisor(opts, 'grp', pconfig)
     opts.process_group_configs = [DummyPGroupConfig(opts, 'grp', pconfigs=[pconfig])]
     opts.logfile = with_logs
@@ -469,6 +504,43 @@ def gen_arg(rng):
     return rng.choice([True, False])
 
 
+def real_call(ctx, tab, name, args, mood):
+    """one traverse() on the real interface objects (fresh world): refused / arity fault / body entered + monitors"""
+    from supervisor import xmlrpc
+    parts = name.split('.')
+    nargs = len(args)
+    k = tab.get(parts[0], {}).get(parts[1]) if len(parts) == 2 else None
+    public = len(parts) == 2 and not parts[1].startswith('_') and k is not None and k[0] == 'm'
+    sup, iface, subs = make_real(mood=mood)
+    root = xmlrpc.RootRPCInterface(subs)
+    target = None
+    if public:       # the fresh objects' code objects are the same functions
+        target = getattr(getattr(root, parts[0]), parts[1]).__func__.__code__
+    before = snapshot(sup)
+    with Entered(target) as ent:
+        try:
+            xmlrpc.traverse(root, name, tuple(args))
+            res = 'ok'
+        except xmlrpc.RPCError as e:
+            res = 'fault %d' % e.code
+        except BaseException as e:
+            res = 'raised ' + type(e).__name__
+    line = 'value 0 ran=%s/%d' % (name, nargs) if ent.n else '%s ran=-' % res
+    inp = {'part': 'real', 'name': name, 'args': list(args), 'mood': mood}
+    ctx.count('real:' + ('entered' if ent.n else res))
+    if not public:
+        if res != 'fault 1' or snapshot(sup) != before:
+            ctx.violation('non-public-name-executed' if snapshot(sup) != before else 'refused-name-wrong-answer',
+                          'traverse(%r, %r) answered %s' % (name, args, res), inp)
+    elif not (k[1] <= nargs <= k[2]):
+        if res != 'fault 2' or ent.n or snapshot(sup) != before:
+            ctx.violation('arity-not-incorrect-parameters', '%r takes %d..%d arguments, %d given: %s (entered=%d)' % (name, k[1], k[2], nargs, res, ent.n), inp)
+    elif not ent.n:
+        ctx.violation('public-method-not-called', '%r with %d arguments: %s' % (name, nargs, res), inp)
+    ctx.case_done(('real', name, tuple(args)), nontrivial=parts[0] in tab)
+    return line
+
+
 def run_real(ctx):
     from supervisor import xmlrpc
     rng = ctx.rng
@@ -496,39 +568,9 @@ def run_real(ctx):
         public = len(parts) == 2 and not parts[1].startswith('_') and k is not None and k[0] == 'm'
         argcounts = sorted(set([0, 1] + ([k[1], min(k[2], 4), min(k[2] + 1, 5)] if public else []) + [rng.randrange(0, 5) for _ in range(per)]))
         for nargs in argcounts:
-            sup, iface, subs = make_real(mood=rng.choice([1, 1, 1, 2]))
-            root = xmlrpc.RootRPCInterface(subs)
             args = tuple(gen_arg(rng) for _ in range(nargs))
-            code = k[3] if public else None
-            target = None
-            if public:       # the fresh objects' code objects are the same functions
-                target = getattr(getattr(root, parts[0]), parts[1]).__func__.__code__
-            before = snapshot(sup)
-            with Entered(target) as ent:
-                try:
-                    xmlrpc.traverse(root, name, args)
-                    res = 'ok'
-                except xmlrpc.RPCError as e:
-                    res = 'fault %d' % e.code
-                except BaseException as e:
-                    res = 'raised ' + type(e).__name__
-            if ent.n:
-                line = 'value 0 ran=%s/%d' % (name, nargs)
-            else:
-                line = '%s ran=-' % res
-            ops.append('call %s %d' % (hx(name), nargs)); il.append(line)
-            inp = {'part': 'real', 'name': name, 'args': [repr(a) for a in args]}
-            ctx.count('real:' + ('entered' if ent.n else res))
-            if not public:
-                if res != 'fault 1' or snapshot(sup) != before:
-                    ctx.violation('non-public-name-executed' if snapshot(sup) != before else 'refused-name-wrong-answer',
-                                  'traverse(%r, %r) answered %s' % (name, args, res), inp)
-            elif not (k[1] <= nargs <= k[2]):
-                if res != 'fault 2' or ent.n or snapshot(sup) != before:
-                    ctx.violation('arity-not-incorrect-parameters', '%r takes %d..%d arguments, %d given: %s (entered=%d)' % (name, k[1], k[2], nargs, res, ent.n), inp)
-            elif not ent.n:
-                ctx.violation('public-method-not-called', '%r with %d arguments: %s' % (name, nargs, res), inp)
-            ctx.case_done(('real', name, args), nontrivial=parts[0] in tab)
+            ops.append('call %s %d' % (hx(name), nargs))
+            il.append(real_call(ctx, tab, name, args, rng.choice([1, 1, 1, 2])))
     cases = [('case rpc ' + ' '.join(entries), ops)]
     ctx.sample({'case': 'rpc (live table, %d entries)' % len(entries), 'ops': ops[:3], 'impl': il[:3]})
     ctx.correspond('real', cases, [il])
@@ -559,9 +601,9 @@ def typed_args(rng, func, valid=True):
             continue
         ty, nm = t[2], t[3]
         if ty == 'string':
-            if nm == 'signal': args.append(rng.choice(['HUP', '1', 'TERM', 'BOGUS', '', '15', '99999']))
+            if nm == 'signal': args.append(rng.choice(['HUP', '1', 'TERM', 'BOGUS', '', '15', '99999', 'SIGN\u00c9', '\u20ac']))
             elif nm in ('chars', 'data', 'type'): args.append(rng.choice(['hello\n', '', 'é€', 'x' * 300]))
-            else: args.append('grp:proc' if valid and rng.random() < 0.6 else rng.choice(['grp:proc', 'proc', 'grp:*', 'grp', 'nosuch', 'grp:nosuch', '', 'a:b:c', 'é', '*']))
+            else: args.append('grp:proc' if valid and rng.random() < 0.6 else rng.choice(['grp:proc', 'proc', 'grp:*', 'grp', 'nosuch', 'grp:nosuch', '', 'a:b:c', 'é', '*', 'grp:pr\u00f6c', 'n\u00e9ant:\u20ac', '\U0001f600']))
         elif ty == 'int':
             args.append(rng.choice(EDGES) if rng.random() < 0.7 else rng.randrange(-2**31, 2**31))
         elif ty == 'boolean':
@@ -573,8 +615,33 @@ def typed_args(rng, func, valid=True):
     return args
 
 
-def run_gate(ctx):
+def gate_case(ctx, name, mood, args, control):
+    """one public method of the real interface in one mood: SHUTDOWN_STATE or not, and whether anything changed"""
     from supervisor import xmlrpc, events
+    sup, iface, subs = make_real(mood=mood)
+    root = xmlrpc.RootRPCInterface(subs)
+    seen = []
+    events.clear(); events.subscribe(events.Event, seen.append)
+    before = snapshot(sup)
+    try:
+        xmlrpc.traverse(root, 'supervisor.' + name, tuple(args))
+        res = 'passes'
+    except xmlrpc.RPCError as e:
+        res = 'fault %d' % e.code if e.code == xmlrpc.Faults.SHUTDOWN_STATE else 'passes'
+    except Exception:
+        res = 'passes'
+    events.clear()
+    changed = 1 if (snapshot(sup) != before or seen) else 0
+    ctx.count('gate:' + res.split()[0] + ('' if mood >= 1 else '-below-running'))
+    ctx.case_done(('gate', name, mood), nontrivial=True)
+    if mood < 1 and name in control and (res != 'fault %d' % xmlrpc.Faults.SHUTDOWN_STATE or changed):
+        ctx.violation('ungated-while-shutting-down:' + name,
+                      'supervisor.%s%r in mood %d answered %s, changed=%d (events %d)' % (name, tuple(args), mood, res, changed, len(seen)),
+                      {'part': 'gate', 'name': name, 'mood': mood, 'args': list(args)})
+    return '%s changed=%d' % (res, changed) if res.startswith('fault') else 'passes'
+
+
+def run_gate(ctx):
     rng = ctx.rng
     control = set(doc_sections().get('Process Control', []))
     sup, iface, subs = make_real()
@@ -582,29 +649,9 @@ def run_gate(ctx):
     ops, il = [], []
     for name in publics:
         for mood in (-1, 0, 1, 2):
-            sup, iface, subs = make_real(mood=mood)
-            root = xmlrpc.RootRPCInterface(subs)
-            seen = []
-            events.clear(); events.subscribe(events.Event, seen.append)
             args = typed_args(rng, getattr(iface, name))
-            before = snapshot(sup)
-            try:
-                xmlrpc.traverse(root, 'supervisor.' + name, tuple(args))
-                res = 'passes'
-            except xmlrpc.RPCError as e:
-                res = 'fault %d' % e.code if e.code == xmlrpc.Faults.SHUTDOWN_STATE else 'passes'
-            except Exception:
-                res = 'passes'
-            events.clear()
-            changed = 1 if (snapshot(sup) != before or seen) else 0
             ops.append('gate %s %d 1' % (name, mood))
-            il.append('%s changed=%d' % (res, changed) if res.startswith('fault') else 'passes')
-            ctx.count('gate:' + res.split()[0] + ('' if mood >= 1 else '-below-running'))
-            ctx.case_done(('gate', name, mood), nontrivial=True)
-            if mood < 1 and name in control and (res != 'fault %d' % xmlrpc.Faults.SHUTDOWN_STATE or changed):
-                ctx.violation('ungated-while-shutting-down:' + name,
-                              'supervisor.%s%r in mood %d answered %s, changed=%d (events %d)' % (name, tuple(args), mood, res, changed, len(seen)),
-                              {'part': 'gate', 'name': name, 'mood': mood, 'args': args})
+            il.append(gate_case(ctx, name, mood, args, control))
     ctx.sample({'case': 'rpc gate', 'ops': ops[:4], 'impl': il[:4]})
     ctx.correspond('gate', [('case rpc', ops)], [il])
 
@@ -612,45 +659,177 @@ def run_gate(ctx):
 # =================================================================================================
 # end to end: the real supervisor_xmlrpc_handler on marshalled requests
 # =================================================================================================
-def e2e_request(handler, method, params):
-    """-> ('value', v) | ('fault', code) | ('http', status) | ('incomplete',)"""
+_CTX = [None]          # the running ctx (framing monitor is applied to every end-to-end request)
+_FRAMES = []           # (kind 'i'|'d', response text, Content-Length header, body bytes) for the framing correspondence
+
+
+class _FakeServer:
+    """what deferring_http_channel needs of its server; everything else (channel, request, producers, handler) is real"""
+    SERVER_IDENT = 'verif'
+    def __init__(self, handlers):
+        from supervisor.medusa.counter import counter
+        self.handlers = handlers
+        self.total_requests, self.bytes_out, self.bytes_in, self.exceptions = counter(), counter(), counter(), counter()
+        self.logger = type('L', (), {'log': staticmethod(lambda *a: None)})()
+    def log_info(self, *a, **k):
+        pass
+
+
+def wire_request(handler, method, params, between_polls=None, max_polls=80, replay_input=None):
+    """One XML-RPC request as bytes over a socketpair into a REAL deferring_http_channel whose server has the real
+    supervisor_xmlrpc_handler installed; the channel's own output machinery (push_with_producer, refill_buffer,
+    initiate_send) puts the response on the socket and we read the bytes a client would receive.
+    -> dict(status, headers, body, cl, polls, deferred, answer, fault_string)"""
+    import select
+    from supervisor.http import deferring_http_channel
     from supervisor.compat import xmlrpclib
-    from supervisor.tests.base import DummyRequest
-    from supervisor.http import NOT_DONE_YET
     from supervisor import xmlrpc
-    data = xmlrpclib.dumps(tuple(params), method)
-    req = DummyRequest('/RPC2', None, None, None)
-    req.channel.server = type('S', (), {'logger': type('L', (), {'log': staticmethod(lambda *a: None)})()})()
+    ctx = _CTX[0]
+    a, b = socket.socketpair()
+    ch = deferring_http_channel(_FakeServer([handler]), a, ('127.0.0.1', 0))
     pushed = []
-    req.channel.push_with_producer = pushed.append
-    handler.continue_request(data, req)
-    if req._error is not None:
-        return ('http', req._error)
-    if pushed:
-        d = pushed[0]
-        if isinstance(d, xmlrpc.DeferredXMLRPCResponse):
-            got = []
-            d.getresponse = lambda body: got.append(body)
-            for _ in range(200):
-                r = d.more()
-                if req._error is not None:
-                    return ('http', req._error)
-                if got:
-                    break
-            if not got:
-                return ('incomplete',)
-            body = got[0]
-        else:
-            return ('http', 'unexpected producer')
-    else:
-        body = req.producers[0]
+    orig_push = ch.push_with_producer
+    ch.push_with_producer = lambda p: (pushed.append(p), orig_push(p))[1]
+    res = {'polls': 0, 'deferred': False}
+    out = b''
     try:
-        v = xmlrpclib.loads(body)[0][0]
-        return ('value', v)
+        body = xmlrpclib.dumps(tuple(params), method).encode('utf-8')
+        b.sendall(b'POST /RPC2 HTTP/1.1\r\nHost: x\r\nContent-Type: text/xml\r\nContent-Length: %d\r\n\r\n' % len(body) + body)
+        while select.select([a], [], [], 0)[0]:
+            ch.handle_read()
+        res['deferred'] = any(isinstance(p, xmlrpc.DeferredXMLRPCResponse) for p in pushed)
+        b.setblocking(False)
+        for _ in range(max_polls + 20):
+            ch.delay = None          # refill_buffer sets it to the producer's delay (possibly 0.0) on NOT_DONE_YET, to False on data
+            ch.initiate_send()
+            try:
+                while True:
+                    d = b.recv(1 << 16)
+                    if not d:
+                        break
+                    out += d
+            except BlockingIOError:
+                pass
+            if ch.delay is not None and ch.delay is not False:
+                res['polls'] += 1
+                if between_polls:
+                    between_polls(res['polls'])
+                if res['polls'] > max_polls:
+                    res['status'] = 'never-completes'
+                    return res
+                continue
+            if not len(ch.producer_fifo) and not ch.ac_out_buffer:
+                break
+    finally:
+        try:
+            ch.close()
+        except Exception:
+            pass
+        b.close()
+    inp = replay_input or {'part': 'e2e-wire', 'method': method, 'params': params}
+    head, sep, wire_body = out.partition(b'\r\n\r\n')
+    lines = head.split(b'\r\n')
+    try:
+        res['status'] = int(lines[0].split()[1])
+    except Exception:
+        res['status'] = 'no-response'
+        ctx.violation('no-http-response:' + method, 'nothing parseable came back on the wire: %r' % out[:80], inp)
+        return res
+    res['headers'] = dict((k.strip().lower(), v.strip()) for k, v in (l.decode('latin-1').split(':', 1) for l in lines[1:] if b':' in l))
+    res['body'] = wire_body
+    if res['status'] != 200:
+        return res
+    kind = 'deferred' if res['deferred'] else 'immediate'
+    ctx.count('wire:' + kind)
+    if any(ord(c) > 127 for c in wire_body.decode('utf-8', 'replace')):
+        ctx.count('wire:non-ascii-body')
+    # ---- framing, judged independently of the objects the handler handled
+    cl = res['headers'].get('content-length')
+    client_body = wire_body
+    if cl is None or not cl.isdigit():
+        ctx.violation('content-length-missing:' + kind, '%s: header %r' % (method, cl), inp)
+    else:
+        res['cl'] = int(cl)
+        if int(cl) != len(wire_body):
+            ctx.violation('content-length-mismatch:' + kind,
+                          '%s: Content-Length %s but %d body bytes were sent (a client reads a %s methodResponse)'
+                          % (method, cl, len(wire_body), 'truncated' if int(cl) < len(wire_body) else 'short'), inp)
+            # the root cause is reported; judge the rest on the full body so that other differences still show
+        else:
+            client_body = wire_body[:int(cl)]
+        try:
+            text = wire_body.decode('utf-8')
+            if len(text) <= 1500:
+                _FRAMES.append(('d' if res['deferred'] else 'i', text, int(cl), wire_body))
+        except UnicodeDecodeError:
+            ctx.violation('response-not-utf8:' + method, 'body %r' % wire_body[:60], inp)
+    if res['headers'].get('content-type') != 'text/xml':
+        ctx.violation('content-type-wrong:' + method, 'Content-Type %r' % res['headers'].get('content-type'), inp)
+    try:
+        res['answer'] = ('value', xmlrpclib.loads(client_body)[0][0])
     except xmlrpclib.Fault as f:
-        return ('fault', f.faultCode)
+        res['answer'] = ('fault', f.faultCode); res['fault_string'] = f.faultString
     except Exception as e:
-        return ('unparseable', type(e).__name__)
+        res['answer'] = ('unparseable', type(e).__name__)
+    return res
+
+
+def e2e_request(handler, method, params):
+    """-> ('value', v) | ('fault', code) | ('http', status) | ('unparseable', what)   (details in e2e_request.last)"""
+    res = wire_request(handler, method, params)
+    e2e_request.last = res
+    if res.get('status') != 200:
+        return ('http', res.get('status'))
+    return res['answer']
+
+
+def norm_value(v):
+    """a value as it looks after XML-RPC marshalling, without the wall-clock dependent fields"""
+    from supervisor.compat import xmlrpclib
+    try:
+        v = xmlrpclib.loads(xmlrpclib.dumps((v,), methodresponse=True))[0][0]
+    except Exception:
+        return ('unmarshallable', repr(v)[:60])
+    def strip(x):
+        if isinstance(x, dict):
+            return dict((k, strip(y)) for k, y in x.items() if k not in ('now', 'description'))
+        if isinstance(x, list):
+            return [strip(y) for y in x]
+        return x
+    return strip(v)
+
+
+def direct_call(root, method, params, between_polls=None):
+    """the same call made directly: traverse on the interface objects, a deferred answer polled by hand.
+    -> ('value', normalised) | ('fault', code, text)"""
+    from supervisor import xmlrpc
+    from supervisor.http import NOT_DONE_YET
+    polls = 0
+    try:
+        v = xmlrpc.traverse(root, method, tuple(params))
+        while isinstance(v, types.FunctionType):
+            r = v()
+            if r is NOT_DONE_YET:
+                polls += 1
+                if between_polls:
+                    between_polls(polls)
+                if polls > 80:
+                    return ('never-completes',)
+                continue
+            v = r
+    except xmlrpc.RPCError as e:
+        return ('fault', e.code, e.text)
+    return ('value', norm_value(v))
+
+
+def same_as_direct(res, direct):
+    if res.get('status') != 200 or 'answer' not in res:
+        return False
+    if res['answer'][0] == 'fault':
+        return direct[0] == 'fault' and res['answer'][1] == direct[1] and res.get('fault_string') == direct[2]
+    if res['answer'][0] == 'value':
+        return direct[0] == 'value' and norm_value(res['answer'][1]) == direct[1]
+    return False
 
 
 def make_stdin_full_process(sup):
@@ -668,86 +847,103 @@ def make_stdin_full_process(sup):
     sup.process_groups['grp'].processes['full'] = p
 
 
+def e2e_world(ctx, mood=1):
+    """fresh dummies + real interface + real handler, with a UTF-8 / invalid-byte log behind every log method"""
+    from supervisor import xmlrpc
+    logpath = os.path.join(ctx.scratch, 'e2e.log')
+    if not os.path.exists(logpath):
+        open(logpath, 'wb').write(b'a\xc3\xa9\xe2\x82\xac\xff tail\n')
+    sup, iface, subs = make_real(mood=mood, with_logs=logpath)
+    return sup, iface, xmlrpc.supervisor_xmlrpc_handler(sup, subs)
+
+
+def e2e_case(ctx, method, params, mood=1, extra=None, prepare=None):
+    """one request over the wire + the monitors: no 5xx/4xx, documented fault code, parseable, value == the direct call's"""
+    from supervisor import xmlrpc
+    codes = set(v for k, v in vars(xmlrpc.Faults).items() if not k.startswith('_'))
+    sup, iface, h = e2e_world(ctx, mood)
+    if prepare:
+        prepare(sup)
+    out = e2e_request(h, method, params)
+    last = e2e_request.last
+    inp = dict({'part': 'e2e', 'method': method, 'params': params, 'mood': mood}, **(extra or {}))
+    ctx.count('e2e:' + out[0] + (':%s' % out[1] if out[0] in ('fault', 'http') else ''))
+    ctx.case_done(('e2e', method, repr(params), mood), nontrivial=True)
+    if out[0] == 'http' and out[1] == 500:
+        ctx.violation('http-500:' + method, '%s%r produced an HTTP 500' % (method, tuple(params)), inp)
+    elif out[0] == 'http':
+        ctx.violation('http-error:' + method, '%s%r produced HTTP %s' % (method, tuple(params), out[1]), inp)
+    elif out[0] == 'fault' and out[1] not in codes:
+        ctx.violation('undocumented-fault-code', '%s%r answered fault %r' % (method, tuple(params), out[1]), inp)
+    elif out[0] == 'unparseable':
+        ctx.violation('response-unparseable:' + method, '%s%r: the response body cannot be parsed (%s)' % (method, tuple(params), out[1]), inp)
+    elif not (extra or {}).get('no_direct'):
+        # the value on the wire is the value the direct call gives (same world rebuilt)
+        sup2, iface2, h2 = e2e_world(ctx, mood)
+        direct = direct_call(h2.rpcinterface, method, params)
+        ctx.count('e2e:compared-with-direct')
+        if not same_as_direct(last, direct):
+            ctx.violation('wire-answer-differs-from-direct:' + method, '%s%r: on the wire %r %r, the direct call gives %r'
+                          % (method, tuple(params), last.get('answer'), last.get('fault_string'), direct), inp)
+    if (extra or {}).get('expect') is not None and out != tuple(extra['expect']):
+        ctx.violation(extra['expect_kind'], '%s%r over the wire answered %r, required %r' % (method, tuple(params), out, tuple(extra['expect'])), inp)
+    return out
+
+
+def e2e_multi_case(ctx, picks):
+    """system.multicall over the wire: element for element what single requests return"""
+    from supervisor import xmlrpc
+    sup, iface, h = e2e_world(ctx)
+    out = e2e_request(h, 'system.multicall', [[{'methodName': m, 'params': p} for m, p in picks]])
+    want = []
+    for m, p in picks:
+        sup2, iface2, h2 = e2e_world(ctx)
+        want.append(('fault', xmlrpc.Faults.INCORRECT_PARAMETERS) if m == 'system.multicall' else e2e_request(h2, m, p))
+    got = [('fault', x['faultCode']) if isinstance(x, dict) and 'faultCode' in x else ('value', x) for x in out[1]] if out[0] == 'value' else out
+    ctx.count('e2e:multicall'); ctx.case_done(('e2e-multi', repr(picks)), nontrivial=True)
+    norm = lambda o: ('value', 'pid') if o[0] == 'value' and isinstance(o[1], int) and not isinstance(o[1], bool) else o
+    if [norm(g) for g in got] != [norm(w) for w in want]:
+        ctx.violation('multicall-differs-from-sequential', 'multicall over the wire answered %r, single requests answer %r' % (got, want),
+                      {'part': 'e2e-multi', 'calls': [[m, p] for m, p in picks]})
+
+
 def run_e2e(ctx):
     from supervisor import xmlrpc
     rng = ctx.rng
-    codes = set(v for k, v in vars(xmlrpc.Faults).items() if not k.startswith('_'))
-    logpath = os.path.join(ctx.scratch, 'e2e.log')
-    open(logpath, 'wb').write('aé€\xff\x1b[0m tail\n'.encode('latin-1', 'replace') if False else b'a\xc3\xa9\xe2\x82\xac\xff tail\n')
-    def fresh(mood=1):
-        sup, iface, subs = make_real(mood=mood, with_logs=logpath)
-        return sup, iface, xmlrpc.supervisor_xmlrpc_handler(sup, subs)
-    def check(method, params, out, mood, extra=None):
-        inp = dict({'part': 'e2e', 'method': method, 'params': params, 'mood': mood}, **(extra or {}))
-        ctx.count('e2e:' + out[0] + (':%s' % out[1] if out[0] in ('fault', 'http') else ''))
-        ctx.case_done(('e2e', method, repr(params), mood), nontrivial=True)
-        if out[0] == 'http' and out[1] == 500:
-            ctx.violation('http-500:' + method, '%s%r produced an HTTP 500' % (method, tuple(params)), inp)
-        elif out[0] == 'http':
-            ctx.violation('http-error:' + method, '%s%r produced HTTP %s' % (method, tuple(params), out[1]), inp)
-        elif out[0] == 'fault' and out[1] not in codes:
-            ctx.violation('undocumented-fault-code', '%s%r answered fault %r' % (method, tuple(params), out[1]), inp)
-        elif out[0] == 'unparseable':
-            ctx.violation('response-unparseable:' + method, '%s%r: the response body cannot be parsed (%s)' % (method, tuple(params), out[1]), inp)
     # ---- regression corpus: F7 (log window cutting a multi-byte character) and F21 (full stdin pipe)
     for m, p in [('supervisor.readProcessStdoutLog', ['grp:proc', 0, 2]), ('supervisor.tailProcessStdoutLog', ['grp:proc', 0, 3]),
                  ('supervisor.readLog', [1, 1]), ('supervisor.readProcessStderrLog', ['grp:proc', -3, 0]), ('supervisor.readMainLog', [5, 2])]:
-        sup, iface, h = fresh()
-        check(m, p, e2e_request(h, m, p), 1, {'regression': 'F7'})
-    sup, iface, h = fresh()
-    make_stdin_full_process(sup)
-    out = e2e_request(h, 'supervisor.sendProcessStdin', ['grp:full', 'hello'])
-    check('supervisor.sendProcessStdin', ['grp:full', 'hello'], out, 1, {'regression': 'F21'})
-    if out != ('value', True):
-        ctx.violation('stdin-full-not-accepted', 'sendProcessStdin to a child whose stdin pipe is full answered %r' % (out,), {'part': 'e2e-f21'})
+        e2e_case(ctx, m, p, 1, {'regression': 'F7'})
+    e2e_case(ctx, 'supervisor.sendProcessStdin', ['grp:full', 'hello'], 1,
+             {'regression': 'F21', 'no_direct': True, 'expect': ['value', True], 'expect_kind': 'stdin-full-not-accepted'},
+             prepare=make_stdin_full_process)
     # ---- every public method, documented argument types
-    sup, iface, h = fresh()
+    sup, iface, h = e2e_world(ctx)
     publics = [('supervisor.' + a, getattr(iface, a)) for a in dir(iface) if not a.startswith('_') and inspect.ismethod(getattr(iface, a))]
     sysi = dict(make_real()[2])['system']
     publics += [('system.' + a, getattr(sysi, a)) for a in dir(sysi) if not a.startswith('_') and inspect.ismethod(getattr(sysi, a))]
     for _ in range(ctx.n(6, 60)):
         for method, func in publics:
             mood = rng.choice([1, 1, 1, -1, 0, 2])
-            sup, iface, h = fresh(mood)
             params = typed_args(rng, func, valid=rng.random() < 0.7)
             if method in ('system.methodHelp', 'system.methodSignature'):
                 params = [rng.choice([m for m, _ in publics] + ['nosuch', ''])]
-            out = e2e_request(h, method, params)
-            check(method, params, out, mood)
+            e2e_case(ctx, method, params, mood)
     # ---- names that are not public, wrong arity: faults 1 / 2 over the wire
     for name in ['supervisor._update', 'supervisor.supervisord', 'supervisor.supervisord.options', 'system._listMethods', 'nosuch.x',
                  'supervisor', 'system.namespaces', 'supervisor.__init__', 'a.b.c']:
-        sup, iface, h = fresh()
-        out = e2e_request(h, name, [])
-        check(name, [], out, 1)
-        if out != ('fault', xmlrpc.Faults.UNKNOWN_METHOD):
-            ctx.violation('refused-name-wrong-answer', '%s over the wire answered %r' % (name, out), {'part': 'e2e', 'method': name, 'params': [], 'mood': 1})
+        e2e_case(ctx, name, [], 1, {'expect': ['fault', xmlrpc.Faults.UNKNOWN_METHOD], 'expect_kind': 'refused-name-wrong-answer'})
     for method, func in publics:
-        sup, iface, h = fresh()
         n = len(typed_args(rng, func)) + 1 + (2 if 'wait' in inspect.signature(func).parameters else 0)
-        out = e2e_request(h, method, [1] * n)
-        check(method, [1] * n, out, 1)
-        if out != ('fault', xmlrpc.Faults.INCORRECT_PARAMETERS):
-            ctx.violation('arity-not-incorrect-parameters', '%s with %d arguments over the wire answered %r' % (method, n, out), {'part': 'e2e', 'method': method, 'params': [1] * n, 'mood': 1})
+        e2e_case(ctx, method, [1] * n, 1, {'expect': ['fault', xmlrpc.Faults.INCORRECT_PARAMETERS], 'expect_kind': 'arity-not-incorrect-parameters'})
     # ---- multicall over the wire: element for element what single requests return
     singles = [('supervisor.getPID', []), ('supervisor.getState', []), ('supervisor.nosuch', []), ('supervisor.getProcessInfo', ['nosuch']),
                ('supervisor.readLog', [0, 3]), ('supervisor.readLog', [-1, 1]), ('system.multicall', [[]]), ('supervisor.getAPIVersion', [1]),
-               ('supervisor.getIdentification', []), ('supervisor.signalProcess', ['grp:proc', 'BOGUS'])]
+               ('supervisor.getIdentification', []), ('supervisor.signalProcess', ['grp:proc', 'BOGUS']),
+               ('supervisor.getProcessInfo', ['n\u00e9ant']), ('supervisor.signalProcess', ['grp:proc', 'SIGN\u00c9']),
+               ('supervisor.readLog', [0, 0]), ('supervisor.tailProcessStdoutLog', ['grp:proc', 0, 6]), ('supervisor.stopProcess', ['\u20ac'])]
     for _ in range(ctx.n(10, 100)):
-        picks = [rng.choice(singles) for _ in range(rng.randrange(1, 6))]
-        sup, iface, h = fresh()
-        out = e2e_request(h, 'system.multicall', [[{'methodName': m, 'params': p} for m, p in picks]])
-        want = []
-        for m, p in picks:
-            sup2, iface2, h2 = fresh()
-            o = ('fault', xmlrpc.Faults.INCORRECT_PARAMETERS) if m == 'system.multicall' else e2e_request(h2, m, p)
-            want.append(o)
-        got = [('fault', x['faultCode']) if isinstance(x, dict) and 'faultCode' in x else ('value', x) for x in out[1]] if out[0] == 'value' else out
-        ctx.count('e2e:multicall'); ctx.case_done(('e2e-multi', repr(picks)), nontrivial=True)
-        norm = lambda o: ('value', 'pid') if o[0] == 'value' and isinstance(o[1], int) and not isinstance(o[1], bool) else o
-        if [norm(g) for g in got] != [norm(w) for w in want]:
-            ctx.violation('multicall-differs-from-sequential', 'multicall over the wire answered %r, single requests answer %r' % (got, want),
-                          {'part': 'e2e-multi', 'calls': picks})
+        e2e_multi_case(ctx, [rng.choice(singles) for _ in range(rng.randrange(1, 6))])
 
 
 # =================================================================================================
@@ -767,7 +963,11 @@ class SlowNs(object):
                 left[0] -= 1
                 return NOT_DONE_YET
             if kind == 'fault':
-                raise RPCError(70, 'slow')
+                raise RPCError(70, 'sl\u00f6w')
+            if kind == '\u00e9':
+                return '\u00e9'
+            if kind == 'text-\u00e9':
+                return '\u00e9\u20ac done after %d' % int(k)
             if kind == 'struct':
                 return {'name': 'x', 'n': int(k), 'l': [1, 'é', True]}
             return 'done after %d' % int(k)
@@ -776,50 +976,8 @@ class SlowNs(object):
 
 
 def deferred_request(handler, method, params, between_polls=None, max_polls=60):
-    """marshalled request through the real handler; the deferred producer it pushes is polled with the REAL
-    DeferredXMLRPCResponse.more()/getresponse().  -> dict(status, answer, polls, content_length_ok, pushed_reply)"""
-    from supervisor.compat import xmlrpclib, as_bytes
-    from supervisor.tests.base import DummyRequest
-    from supervisor.http import NOT_DONE_YET
-    from supervisor import xmlrpc
-    req = DummyRequest('/RPC2', None, None, None)
-    req.channel.server = type('S', (), {'logger': type('L', (), {'log': staticmethod(lambda *a: None)})()})()
-    pushed = []
-    req.channel.push_with_producer = pushed.append
-    req.channel.close_when_done = lambda: None
-    handler.continue_request(xmlrpclib.dumps(tuple(params), method), req)
-    res = {'polls': 0, 'deferred': False}
-    if req._error is not None:
-        res['status'] = req._error; return res
-    if pushed and isinstance(pushed[0], xmlrpc.DeferredXMLRPCResponse):
-        d = pushed[0]
-        res['deferred'] = True
-        while True:
-            r = d.more()
-            if req._error is not None:
-                res['status'] = req._error; return res
-            if r is NOT_DONE_YET:
-                res['polls'] += 1
-                if between_polls:
-                    between_polls(res['polls'])
-                if res['polls'] > max_polls:
-                    res['status'] = 'never-completes'; return res
-                continue
-            break
-        res['finished'] = d.finished and d.more() == ''
-        res['pushed_reply'] = len(pushed) == 2        # getresponse() handed the header+body producer to the channel
-    body = req.producers[0] if req.producers else None
-    if body is None:
-        res['status'] = 'no-body'; return res
-    res['status'] = 200
-    res['content_length_ok'] = req.headers.get('Content-Length') == len(body) and req.headers.get('Content-Type') == 'text/xml'
-    try:
-        res['answer'] = ('value', xmlrpclib.loads(body)[0][0])
-    except xmlrpclib.Fault as f:
-        res['answer'] = ('fault', f.faultCode)
-    except Exception as e:
-        res['answer'] = ('unparseable', type(e).__name__)
-    return res
+    """the request on the wire (wire_request); the deferred producer is polled by the real channel's refill_buffer"""
+    return wire_request(handler, method, params, between_polls, max_polls)
 
 
 def direct_answer(fn, between_polls=None, max_polls=60):
@@ -844,82 +1002,167 @@ def direct_answer(fn, between_polls=None, max_polls=60):
     return ('value', v), polls
 
 
-def run_e2e_deferred(ctx):
+def deferred_check(ctx, label, res, direct, inp):
+    ctx.count('deferred:' + label); ctx.count('deferred:polls', res['polls'])
+    ctx.case_done(('e2e-deferred', label, repr(inp)), nontrivial=res['polls'] > 0)
+    if res.get('status') == 500:
+        ctx.violation('http-500:' + label, 'deferred %s produced an HTTP 500' % label, inp)
+    elif res.get('status') != 200:
+        ctx.violation('deferred-response-never-completes', 'deferred %s: status %r after %d polls' % (label, res.get('status'), res['polls']), inp)
+    elif not same_as_direct(res, direct):
+        ctx.violation('deferred-response-differs', 'deferred %s completed on the wire with %r %r; the direct call gives %r'
+                      % (label, res.get('answer'), res.get('fault_string'), direct), inp)
+
+
+def deferred_world(pname='proc', slow=True):
+    from supervisor import xmlrpc
+    sup, iface, subs = make_real(pname=pname)
+    subs2 = [('supervisor', iface)] + ([('slow', SlowNs([]))] if slow else [])
+    subs2.append(('system', xmlrpc.SystemNamespaceRPCInterface(subs2)))
+    return sup, iface, subs2
+
+
+def deferred_slow_case(ctx, k, kind, in_multicall):
+    """a plugin namespace answering after k polls (alone, or inside system.multicall between immediate calls)"""
+    from supervisor import xmlrpc
+    if in_multicall:
+        method = 'system.multicall'
+        calls = [{'methodName': 'supervisor.getAPIVersion', 'params': []}, {'methodName': 'slow.slow', 'params': [k, kind]},
+                 {'methodName': 'supervisor.getProcessInfo', 'params': ['n\u00e9ant']}, {'methodName': 'supervisor.getIdentification', 'params': []}]
+        if k % 2:
+            calls = calls[:2] + calls[3:]
+        params = [calls]
+    else:
+        method, params = 'slow.slow', [k, kind]
+    sup, iface, subs2 = deferred_world()
+    res = deferred_request(xmlrpc.supervisor_xmlrpc_handler(sup, subs2), method, params)
+    sup, iface, subs3 = deferred_world()
+    deferred_check(ctx, 'multicall[slow.slow]' if in_multicall else 'slow.slow', res, direct_call(xmlrpc.RootRPCInterface(subs3), method, params),
+                   {'part': 'e2e-deferred', 'case': 'slow', 'k': k, 'kind': kind, 'in_multicall': in_multicall})
+
+
+DEFERRED_REAL = {   # method -> (state before, state while waiting, parameters)
+    'stopProcess': ('RUNNING', 'STOPPING', lambda pn: ['grp:' + pn, True]),
+    'startProcess': ('STOPPED', 'STARTING', lambda pn: ['grp:' + pn, True]),
+    'stopAllProcesses': ('RUNNING', 'STOPPING', lambda pn: [True]),
+    'startProcessGroup': ('STOPPED', 'STARTING', lambda pn: ['grp', True]),
+}
+
+
+def deferred_real_case(ctx, method, j, pname, end_state):
+    """stop / start with wait on the real interface, the process reaching `end_state` after j polls"""
     from supervisor import xmlrpc
     from supervisor.states import ProcessStates
-    rng = ctx.rng
-    def check(label, res, want, want_polls, inp):
-        ctx.count('deferred:' + label); ctx.count('deferred:polls', res['polls'])
-        ctx.case_done(('e2e-deferred', label, repr(inp)), nontrivial=res['polls'] > 0)
-        if res.get('status') == 500:
-            ctx.violation('http-500:' + label, 'deferred %s produced an HTTP 500' % label, inp)
-        elif res.get('status') != 200:
-            ctx.violation('deferred-response-never-completes', 'deferred %s: status %r after %d polls' % (label, res.get('status'), res['polls']), inp)
-        elif res['answer'] != want or res['polls'] != want_polls:
-            ctx.violation('deferred-response-differs', 'deferred %s completed with %r after %d polls; the direct call gives %r after %d'
-                          % (label, res['answer'], res['polls'], want, want_polls), inp)
-        elif res['deferred'] and not (res.get('finished') and res.get('pushed_reply') and res.get('content_length_ok')):
-            ctx.violation('deferred-response-incomplete', 'deferred %s: finished=%s reply-pushed=%s content-length-ok=%s'
-                          % (label, res.get('finished'), res.get('pushed_reply'), res.get('content_length_ok')), inp)
-    # ---- a plugin namespace answering after k polls
-    for k in range(0, 6):
-        for kind in ('value', 'fault', 'struct'):
-            sup, iface, subs = make_real()
-            log = []
-            subs2 = [('supervisor', iface), ('slow', SlowNs(log))]
-            subs2.append(('system', xmlrpc.SystemNamespaceRPCInterface(subs2)))
-            h = xmlrpc.supervisor_xmlrpc_handler(sup, subs2)
-            res = deferred_request(h, 'slow.slow', [k, kind])
-            want, wp = direct_answer(lambda: SlowNs([]).slow(k, kind))
-            check('slow.slow', res, want, wp, {'part': 'e2e-deferred', 'method': 'slow.slow', 'k': k, 'kind': kind})
-            # the same inside system.multicall, between two immediate calls
-            sup, iface, subs = make_real()
-            subs2 = [('supervisor', iface), ('slow', SlowNs([]))]
-            subs2.append(('system', xmlrpc.SystemNamespaceRPCInterface(subs2)))
-            h = xmlrpc.supervisor_xmlrpc_handler(sup, subs2)
-            calls = [{'methodName': 'supervisor.getAPIVersion', 'params': []}, {'methodName': 'slow.slow', 'params': [k, kind]},
-                     {'methodName': 'supervisor.getIdentification', 'params': []}]
-            res = deferred_request(h, 'system.multicall', [calls])
-            mid = want[1] if want[0] == 'value' else {'faultCode': want[1], 'faultString': 'NOT_RUNNING: slow'}
-            sup2, iface2, _ = make_real()
-            wantm = ('value', [iface2.getAPIVersion(), mid, iface2.getIdentification()])
-            check('multicall[slow.slow]', res, wantm, wp, {'part': 'e2e-deferred', 'method': 'system.multicall', 'k': k, 'kind': kind})
-    # ---- the real interface: stop / start with wait, the process reaching its state after j polls
-    for j in range(0, 5):
-        for method, start_state, mid_state, end_state in (('stopProcess', ProcessStates.RUNNING, ProcessStates.STOPPING, ProcessStates.STOPPED),
-                                                          ('startProcess', ProcessStates.STOPPED, ProcessStates.STARTING, ProcessStates.RUNNING),
-                                                          ('startProcess', ProcessStates.STOPPED, ProcessStates.STARTING, ProcessStates.BACKOFF),
-                                                          ('stopAllProcesses', ProcessStates.RUNNING, ProcessStates.STOPPING, ProcessStates.STOPPED),
-                                                          ('startProcessGroup', ProcessStates.STOPPED, ProcessStates.STARTING, ProcessStates.RUNNING)):
-            def scenario():
-                sup, iface, subs = make_real()
-                p = sup.process_groups['grp'].processes['proc']
-                p.state = start_state
-                p.stop = lambda: setattr(p, 'state', mid_state)
-                p.spawn = lambda: setattr(p, 'state', mid_state)
-                def between(n):
-                    if n >= j:
-                        p.state = end_state
-                if j == 0:
-                    p.stop = lambda: setattr(p, 'state', end_state)
-                    p.spawn = lambda: setattr(p, 'state', end_state)
-                return sup, iface, subs, between
-            params = {'stopProcess': ['grp:proc', True], 'startProcess': ['grp:proc', True], 'stopAllProcesses': [True], 'startProcessGroup': ['grp', True]}[method]
-            sup, iface, subs, between = scenario()
-            h = xmlrpc.supervisor_xmlrpc_handler(sup, subs)
-            res = deferred_request(h, 'supervisor.' + method, params, between)
-            sup2, iface2, subs2, between2 = scenario()
-            want, wp = direct_answer(lambda: getattr(iface2, method)(*params), between2)
-            check('supervisor.' + method, res, want, wp,
-                  {'part': 'e2e-deferred', 'method': 'supervisor.' + method, 'j': j, 'end_state': end_state})
+    start_state, mid_state, mk = DEFERRED_REAL[method]
+    start_state, mid_state, end = getattr(ProcessStates, start_state), getattr(ProcessStates, mid_state), getattr(ProcessStates, end_state)
+    def scenario():
+        sup, iface, subs = deferred_world(pname, slow=False)
+        p = sup.process_groups['grp'].processes[pname]
+        p.state = start_state
+        first = end if j == 0 else mid_state
+        p.stop = lambda: setattr(p, 'state', first)
+        p.spawn = lambda: setattr(p, 'state', first)
+        def between(n):
+            if n >= j:
+                p.state = end
+        return sup, iface, subs, between
+    params = mk(pname)
+    sup, iface, subs, between = scenario()
+    res = deferred_request(xmlrpc.supervisor_xmlrpc_handler(sup, subs), 'supervisor.' + method, params, between)
+    sup2, iface2, subs2, between2 = scenario()
+    direct = direct_call(xmlrpc.RootRPCInterface(subs2), 'supervisor.' + method, params, between2)
+    deferred_check(ctx, 'supervisor.' + method, res, direct,
+                   {'part': 'e2e-deferred', 'case': 'real', 'method': method, 'j': j, 'end_state': end_state, 'pname': pname})
 
+
+def run_e2e_deferred(ctx):
+    # regression F42 (fixed): a deferred answer whose text is not ASCII -- Content-Length used to count characters
+    deferred_slow_case(ctx, 0, '\u00e9', False)
+    deferred_slow_case(ctx, 2, '\u00e9', True)
+    for k in range(0, 6):
+        for kind in ('value', 'fault', 'struct', 'text-\u00e9'):
+            deferred_slow_case(ctx, k, kind, False)
+            deferred_slow_case(ctx, k, kind, True)
+    for j in range(0, 5):
+        for pname in ('proc', 'pr\u00f6c'):
+            for method, end_state in (('stopProcess', 'STOPPED'), ('startProcess', 'RUNNING'), ('startProcess', 'BACKOFF'),
+                                      ('stopAllProcesses', 'STOPPED'), ('startProcessGroup', 'RUNNING')):
+                deferred_real_case(ctx, method, j, pname, end_state)
+
+
+def run_frames(ctx):
+    """the framing of every response seen on the wire vs the model of the response builders"""
+    seen, ops, il = set(), [], []
+    for kind, text, cl, body in _FRAMES:
+        key = (kind, text)
+        if key in seen:
+            continue
+        seen.add(key)
+        ops.append('frame %s %s' % (kind, ','.join(str(ord(c)) for c in text) if text else '-'))
+        il.append('cl=%d wire=%s' % (cl, body.hex() if body else '-'))
+        ctx.case_done(('frame', kind, text), nontrivial=any(ord(c) > 127 for c in text))
+    ctx.count('frames:distinct', len(ops))
+    if ops:
+        ctx.sample({'case': 'rpc frame', 'ops': [ops[0][:80]], 'impl': [il[0][:80]]})
+        ctx.correspond('frame', [('case rpc', ops)], [il])
 
 def run(ctx):
     run_rec(ctx)
     run_real(ctx)
     run_gate(ctx)
+    _CTX[0] = ctx
+    del _FRAMES[:]
     run_e2e(ctx)
     run_e2e_deferred(ctx)
+    run_frames(ctx)
+
+
+
+def replay(ctx, data):
+    """re-run the input of a replay file through the population function it came from"""
+    from supervisor import xmlrpc
+    _CTX[0] = ctx
+    inp = data['input']
+    part = inp.get('part')
+    if part == 'rec':
+        log = []
+        spec = spec_from_entries(inp['entries'])
+        nss, _, _ = rebuild(None, spec, log)
+        root = xmlrpc.AttrDict(dict(nss)) if inp.get('attrdict') else xmlrpc.RootRPCInterface(nss)
+        rec_call(ctx, root, spec, inp['entries'], inp['name'], inp['nargs'], inp.get('attrdict', False), log)
+    elif part == 'multi':
+        log = []
+        spec = spec_from_entries(inp['entries'])
+        nss, _, _ = rebuild(None, spec, log)
+        system = xmlrpc.SystemNamespaceRPCInterface([(n, o) for n, o in nss if n != 'system'])
+        multi_case(ctx, system, spec, inp['entries'], inp['calls'], log, any(n == 'system' for n, _ in nss))
+    elif part == 'real':
+        sup, iface, subs = make_real()
+        entries, tab = real_table(xmlrpc.RootRPCInterface(subs))
+        real_call(ctx, tab, inp['name'], tuple(inp['args']), inp.get('mood', 1))
+    elif part == 'gate':
+        gate_case(ctx, inp['name'], inp['mood'], inp['args'], set(doc_sections().get('Process Control', [])))
+    elif part in ('e2e', 'e2e-wire'):
+        extra = dict((k, v) for k, v in inp.items() if k in ('expect', 'expect_kind', 'no_direct', 'regression'))
+        prepare = make_stdin_full_process if inp.get('regression') == 'F21' else None
+        if inp['method'].startswith('slow.') or any(isinstance(c, dict) and str(c.get('methodName', '')).startswith('slow.')
+                                                    for p_ in inp['params'] if isinstance(p_, list) for c in p_):
+            # a request of the deferred population (plugin namespace `slow`)
+            sup, iface, subs2 = deferred_world()
+            res = deferred_request(xmlrpc.supervisor_xmlrpc_handler(sup, subs2), inp['method'], inp['params'])
+            sup, iface, subs3 = deferred_world()
+            deferred_check(ctx, inp['method'], res, direct_call(xmlrpc.RootRPCInterface(subs3), inp['method'], inp['params']), inp)
+        else:
+            e2e_case(ctx, inp['method'], inp['params'], inp.get('mood', 1), extra, prepare)
+    elif part == 'e2e-multi':
+        e2e_multi_case(ctx, [(m, p) for m, p in inp['calls']])
+    elif part == 'e2e-deferred':
+        if inp.get('case') == 'slow':
+            deferred_slow_case(ctx, inp['k'], inp['kind'], inp['in_multicall'])
+        else:
+            deferred_real_case(ctx, inp['method'], inp['j'], inp['pname'], inp['end_state'])
+    else:
+        raise Infra('unknown replay part %r' % part)
 
 
 # ---- MANIFEST metadata -----------------------------------------------------------------------
